@@ -489,6 +489,24 @@ def shape_oracle(obs):
     return None
 
 
+# ------------------------------------------------------------------ oracle-only lane: two instantiations that differ only in a type parameter absent from the signature
+
+PHANTOM = ['c02.phantom']
+PHANTOM_WANT = 'a=c1 b=c2 then=s,c2 after=o,o end d=-'
+
+
+def phantom_oracle(obs):
+    """Z[int8] and Z[string] (`func Z[T any](x int) int`) are two functions with one func type: in ONE builder each gets its own
+    mocker, each runs its own replacement, a re-stub of one leaves the other alone, Reset restores both (seed C12-R6-2)."""
+    if obs is None:
+        return 'no observation'
+    if obs.startswith('crash'):
+        return 'the process died: ' + obs
+    if obs != PHANTOM_WANT:
+        return f'observed `{obs}`, wanted `{PHANTOM_WANT}` (one builder: Func(Z[int8]).Apply(k1); Func(Z[string]).Apply(k2); call both; Func(Z[int8]).Return(..); call both; Reset; call both)'
+    return None
+
+
 # ------------------------------------------------------------------ oracle-only lane: internal/patch driven directly
 
 PLOW = ['c02.plow']
@@ -673,6 +691,13 @@ def run(tier):
         out.violation(f'`b.Func(Q[*ShA]).Apply(cb)` and Q[*ShB]: {shape_why}',
                       {'kind': 'impl-oracle-gcshape', 'ops': SHAPE, 'observed': shape_obs[0], 'why': shape_why,
                        'how': 'python3 check.py C02 --replay <this file>'}, key='generic-same-shape')
+    # 1c'. oracle-only lane: instantiations that differ only in a type parameter that is not part of the signature
+    ph_obs = run_shard(binary, PHANTOM, 'phantom', test='TestVerifC02Stale')
+    ph_why = phantom_oracle(ph_obs[0])
+    if ph_why:
+        out.violation(f'`Func(Z[int8])` / `Func(Z[string])` in one builder: {ph_why}',
+                      {'kind': 'impl-oracle-generic-phantom-param', 'ops': PHANTOM, 'observed': ph_obs[0], 'why': ph_why,
+                       'how': 'python3 check.py C02 --replay <this file>'})
     # 1d. oracle-only lane: the patch layer on synthetic code (size / sentinel refusals, exact 13 bytes) and patch.Unpatch of an unpatched function
     plow_obs = run_shard(binary, PLOW, 'plow', test='TestVerifC02Stale')
     plow_why = plow_oracle(plow_obs[0])
